@@ -34,7 +34,7 @@ constexpr bool kInjectCreateFailure = true;
 namespace {
 
 struct Cover {
-    uint64_t concurrentSubmits = 0, startFailuresInjected = 0;
+    uint64_t concurrentSubmits = 0, startFailuresInjected = 0, expiringPrograms = 0, updates = 0;
     uint64_t programs = 0, ops = 0, submitted = 0, ran = 0, dropped = 0, stops = 0, clears = 0, drains = 0, restarts = 0, closures = 0;
     uint64_t stopsWithRunningTask = 0, clearsWithRunningTask = 0, stopsWithWorkerInPreBlock = 0, singleWorkerPrograms = 0, maxWorkersSeen = 0, nontrivialCases = 0;
     std::vector<uint64_t> fps;
@@ -156,7 +156,8 @@ struct Program {
     int segment = 0;
     int drainedUpTo = 0;            // tasks [0, drainedUpTo) have been accounted for by a drain/clear/stop
     uint64_t createsAtEpochStart = 0;
-    bool pendingKick = false;       // a start() failed in thread creation: tasks may be queued with no worker alive
+    bool pendingKick = false;
+    bool expiring = false;          // program with expiring workers: no per-epoch creation bound, no waiting for tasks       // a start() failed in thread creation: tasks may be queued with no worker alive
     rt::Hash hist;
     std::string log;
 
@@ -183,7 +184,7 @@ struct Program {
         // Fault injection (plain build only: on this path the unchanged pool leaks its half-built worker objects, which
         // LeakSanitizer would report although no property speaks about them): the worker thread cannot be created.
         // start() then throws; the task it was given still belongs to the pool and must run or be destroyed later.
-        bool inject = kInjectCreateFailure && !pendingKick && rng.chance(20);
+        bool inject = kInjectCreateFailure && !pendingKick && !expiring && rng.chance(20);
         bool threw = false;
         if (inject) spy::failNextCreate();
         try {
@@ -226,7 +227,7 @@ struct Program {
         int act = pool->getActiveThreadCount();
         if (act > tc) fail("C08", "worker-count", "start", "getActiveThreadCount() > getThreadCount()");
         uint64_t created = spy::counters().creates.load() - createsAtEpochStart;
-        if ((int) created > maxThreads)
+        if (!expiring && (int) created > maxThreads)
             fail("C08", "worker-count", "start", std::to_string(created) + " worker threads were created in one epoch with maximum " + std::to_string(maxThreads));
         gPhase = "idle";
     }
@@ -345,7 +346,46 @@ struct Program {
         }
     }
 
+    // Programs with EXPIRING workers (C08's maximum and stop() clauses do not depend on expiry being off): a short
+    // timeout set before the first start, idle periods longer than it, update() calls that let idle workers exit and
+    // reap them. Tasks may legitimately sit in the queue while every worker has expired until the next start(), so
+    // these programs never wait for tasks; they check the worker maximum after every start()/update() and the
+    // post-conditions of stop().
+    void runExpiring(int steps) {
+        maxThreads = (int) rng.range(1, 4);
+        expiring = true;
+        pool = new ThreadPool();
+        int timeoutMs = (int) rng.range(1, 4);
+        pool->setExpiryTimeout(timeoutMs);
+        pool->setMaxThreadCount(maxThreads);
+        spy::unwatchAll();
+        spy::watch(pool, sizeof(ThreadPool));
+        note("expiry" + std::to_string(timeoutMs) + "ms");
+        for (int st = 0; st < steps && !gCaseFailed; ++st) {
+            rt::crumb("expiring pool max=%d step %d: %s", maxThreads, st, log.size() > 160 ? log.c_str() + log.size() - 160 : log.c_str());
+            unsigned r = (unsigned) rng.below(100);
+            if (r < 45) submit();
+            else if (r < 65) { note("idle"); usleep((useconds_t) ((timeoutMs + rng.range(1, 4)) * 1000)); }
+            else if (r < 88) {
+                note("update");
+                gPhase = "update";
+                pool->update();
+                gPhase = "idle";
+                ++C.updates;
+                if (pool->getThreadCount() > maxThreads) fail("C08", "worker-count", "update", "getThreadCount() exceeds the maximum after update()");
+            }
+            else stop(false);
+        }
+        if (!gCaseFailed) stop(false);
+        if (!gCaseFailed && rng.chance(500)) { submit(); if (!gCaseFailed) stop(false); }
+        if (!gCaseFailed) finalChecks();
+        spy::disableDelays();
+        ++C.expiringPrograms;
+        if (!gCaseFailed) delete pool;
+    }
+
     void run(int steps) {
+        if (rng.chance(130)) return runExpiring(steps);
         maxThreads = (int) std::vector<int>{1, 1, 2, 3, 4, 8}[rng.below(6)];
         if (maxThreads == 1) ++C.singleWorkerPrograms;
         pool = new ThreadPool();
@@ -460,7 +500,7 @@ int main(int argc, char **argv) {
     }
     rt::finish(rt::Json().kv("engine", "h_pool").kv("programs", C.programs).kv("ops", C.ops).kv("tasksSubmitted", C.submitted).kv("tasksRan", C.ran)
                    .kv("tasksDropped", C.dropped).kv("closureTasks", C.closures).kv("stops", C.stops).kv("clears", C.clears).kv("drains", C.drains)
-                   .kv("restarts", C.restarts).kv("concurrentSubmitBursts", C.concurrentSubmits).kv("threadCreationFailuresInjected", C.startFailuresInjected).kv("stopsWithRunningTask", C.stopsWithRunningTask).kv("clearsWithRunningTask", C.clearsWithRunningTask)
+                   .kv("restarts", C.restarts).kv("concurrentSubmitBursts", C.concurrentSubmits).kv("threadCreationFailuresInjected", C.startFailuresInjected).kv("programsWithExpiringWorkers", C.expiringPrograms).kv("updateCalls", C.updates).kv("stopsWithRunningTask", C.stopsWithRunningTask).kv("clearsWithRunningTask", C.clearsWithRunningTask)
                    .kv("stopsWithWorkerInPreBlockWindow", C.stopsWithWorkerInPreBlock).kv("singleWorkerPrograms", C.singleWorkerPrograms)
                    .kv("maxWorkersSeen", C.maxWorkersSeen).kv("nontrivialCases", C.nontrivialCases)
                    .kv("delaysCondEntry", k.condEntry.load()).kv("delaysAfterWake", k.afterWake.load()).kv("delaysOther", k.beforeLock.load() + k.afterUnlock.load() + k.beforeNotify.load() + k.threadStart.load())
